@@ -1,25 +1,189 @@
 # coding: utf-8
 """C09 — the product records its provenance and is a complete GenBank record."""
-from harness.props import C08
+from harness import annot, common, gens, pattern, recutil
+from harness.props import C08, C11
 
 LEVEL_NOTE = ("Theorems: the product is the concatenation of the fragments with their feature tables laid out one after "
               "the other; each fragment carries one generated provenance feature over its whole length; in the product "
               "these cover consecutive intervals from 0 to the length (tiling); the stretch under each is a slice of a "
               "rotation of the plasmid it names. PARTIAL: id/name/comment block and the GenBank write/read round trip "
               "are Biopython object-level facts, not modelled; they are decided by the differential oracle (sequence, "
-              "circular topology, feature types and locations with strand None = +1 after the round trip).")
+              "circular topology, feature types and locations with strand None = +1 after the round trip). Two-level "
+              "assemblies (a product re-used as a module) are run on the implementation and on the model.")
 
 IMPORTS = C08.IMPORTS
 run_annot = C08.run_annot
 
 
+# ------------------------------------------------------------ two levels
+
+def gen_two_level(ctx):
+    rng = ctx.rng
+    kit = {c["name"]: c for c in ctx.tables["classes"]}
+    cases = []
+    per = 4 if ctx.quick else 40
+    for vname, mname, nname in C11.TRIPLES:
+        if mname == "YTKProduct" or vname not in kit:
+            continue
+        cv, cm, cn = kit[vname], kit[mname], kit[nname]
+        vitems = pattern.tokenize(cv["structure"], ctx.lettermap)
+        enz, nenz = cv["cutter"], cn["cutter"]
+        made = 0
+        for _ in range(per * 30):
+            if made >= per:
+                break
+            q = rng.choice([1, 1, 2])
+            vseq, vg = gens.instantiate_groups(rng, vitems, star=(0, 8))
+            ohs = gens.distinct_overhangs(rng, enz, q - 1) if q > 1 else []
+            if ohs is None:
+                continue
+            chain = [vg[1]] + ohs + [vg[3]]
+            if len(set(chain)) != len(chain) or any(gens.rc(a) in chain for a in chain):
+                continue
+            mods = [gens.gen_module(rng, enz, chain[j], chain[j + 1], rng.randrange(3, 10), rng.randrange(0, 6)) for j in range(q)]
+            if any(m is None for m in mods):
+                continue
+            vseq = vseq + gens.rand_dna(rng, rng.randrange(0, 6))
+            if not gens.two_sites(enz, vseq):
+                continue
+            prod = "".join(m["frag"] for m in mods) + vseq  # only to count the next-level sites roughly
+            labels = [0]
+            elements = []
+            for kind, spec, seq, region in [("module", gens.kit_spec(cm), m["seq"], annot.regions(enz, m, "module")[0]) for m in mods]:
+                feats = C08.boundary_features(rng, region, len(seq), labels, rng.randrange(1, 4))
+                i = len(elements)
+                elements.append({"kind": kind, "cls": spec, "rot": rng.randrange(0, len(seq)), "region": list(region),
+                                 "rec": {"seq": seq, "id": "m%d" % i, "name": "n%d" % i, "desc": "d", "features": feats, "refs": None}})
+            elements.append({"kind": "vector", "cls": gens.kit_spec(cv), "rot": rng.randrange(0, len(vseq)), "region": [0, 0],
+                             "rec": {"seq": vseq, "id": "v%d" % q, "name": "nv", "desc": "d", "features": [], "refs": None}})
+            made += 1
+            cases.append({"triple": [vname, mname, nname], "q": q, "elements": elements, "order": list(range(q)),
+                          "next": gens.kit_spec(cn), "nenz": nenz, "seed": rng.randrange(1 << 30), "id": "p1", "name": "p1"})
+    return cases
+
+
+def run_two_level(case):
+    """level 1 with a kit vector embedding the next level's sites; the product re-used as the module of level 2"""
+    import random
+    from harness import implutil
+    ents = annot.build(case["elements"])
+    q = case["q"]
+    inputs1 = [recutil.dump_record(e.record) for e in ents]
+    obs1, prod1 = implutil.observe_assembly(ents[q], [ents[i] for i in case["order"]], id="p1", name="p1")
+    if prod1 is None:
+        return {"obs1": obs1}
+    nxt = implutil.get_class(case["next"])
+    mod2 = nxt(prod1)
+    t = implutil.typed_info(nxt(implutil.mk_circular(str(prod1.seq), "x")))
+    if not t["valid"] or t["up"].upper() == t["down"].upper():
+        return {"obs1": {"out": "product"}, "skip": "product not usable at the next level"}
+    rng = random.Random(case["seed"])
+    v2 = gens.gen_vector(rng, case["nenz"], t["down"].upper(), t["up"].upper(), 6, 4)
+    if v2 is None:
+        return {"obs1": {"out": "product"}, "skip": "no level-2 vector"}
+    vcls = implutil.get_class(gens.generic_spec("vector", case["nenz"]))
+    vec2 = vcls(implutil.mk_circular(v2["seq"], "v2"))
+    in2 = [recutil.dump_record(mod2.record), recutil.dump_record(vec2.record)]
+    for d, ent in zip(in2, (mod2, vec2)):
+        for f, src in zip(d["features"], ent.record.features):
+            if src.type == "source" and "plasmid" in src.qualifiers:
+                f["plasmid"] = src.qualifiers["plasmid"]
+    obs2, prod2 = implutil.observe_assembly(vec2, [mod2], id="p2", name="p2")
+    out = {"obs1": {"out": "product"}, "inputs1": inputs1, "product1": annot.product_view(prod1), "obs2": obs2,
+           "inputs2": in2, "v2": {"seq": v2["seq"]}}
+    if prod2 is None:
+        return out
+    view = annot.product_view(prod2)
+    out["product2"] = view
+    W = out["violations9"] = []
+    n = len(view["seq"])
+    outer_ids = ["p1", "v2"]
+    cover = [0] * n
+    outer = []
+    for f in view["features"]:
+        if "plasmid" not in f:
+            continue
+        pid = f["plasmid"][0] if isinstance(f["plasmid"], list) else f["plasmid"]
+        if pid in outer_ids:
+            outer.append((pid, f))
+            for a, b, _ in f["parts"]:
+                for x in range(a, b):
+                    cover[x % n] += 1
+    if any(c != 1 for c in cover):
+        W.append({"signature": "C09:two-level:outer-sources-do-not-tile",
+                  "what": "provenance features naming the level-2 inputs %s cover the product %s" % ([o[0] for o in outer], cover)})
+    spans = {pid: (f["parts"][0][0], f["parts"][-1][1]) for pid, f in outer}
+    for f in view["features"]:
+        if "plasmid" not in f:
+            continue
+        pid = f["plasmid"][0] if isinstance(f["plasmid"], list) else f["plasmid"]
+        if pid in outer_ids:
+            continue
+        a, b = f["parts"][0][0], f["parts"][-1][1]
+        if "p1" not in spans or not (spans["p1"][0] <= a and b <= spans["p1"][1]):
+            W.append({"signature": "C09:two-level:inner-source-not-nested",
+                      "what": "the level-1 provenance feature of %s [%d,%d) is not nested inside the feature naming p1 (%s)"
+                              % (pid, a, b, spans.get("p1"))})
+    return out
+
+
+def two_level_terms(ctx, case, r):
+    """(level-1 elements, product 1) and (level-2 elements, product 2) for the model"""
+    terms = []
+    q = case["q"]
+    e1 = "[" + "; ".join("(%s, %s)" % (gens.c_cls(ctx, case["elements"][i]["cls"]),
+                                       recutil.c_record({"seq": r["inputs1"][i]["seq"], "features": r["inputs1"][i]["features"]}))
+                         for i in list(range(q)) + [q]) + "]"
+    terms.append("(%s, %s)" % (e1, C08.c_product(case, {"product": r["product1"]})))
+    if "product2" in r:
+        specs = [case["next"], gens.generic_spec("vector", case["nenz"])]
+        e2 = "[" + "; ".join("(%s, %s)" % (gens.c_cls(ctx, sp), recutil.c_record({"seq": d["seq"], "features": [
+            dict(f, q=(None if f["type"] == "source" and f.get("q") is None else f.get("q"))) for f in d["features"]]}))
+                             for sp, d in zip(specs, r["inputs2"])) + "]"
+        terms.append("(%s, %s)" % (e2, C08.c_product(case, {"product": r["product2"]}, ids=["p1", "v2"])))
+    return terms
+
+
 def run(ctx):
     ctx.rule = ("the annotated assemblies of C08 (chains of 1-3 modules over nine enzymes, random origins, feature tables of "
-                "every shape), ids/names from a set of GenBank-legal identifiers including a 15-letter one; per assembly: "
-                "metadata, comment, tiling by the provenance features, verbatim occurrence in the named plasmid, GenBank "
-                "write + read; plus two-level assemblies (thorough); non-trivial = the product inherits a feature")
+                "every shape, surplus modules), ids/names from a set of GenBank-legal identifiers including a 15-letter one; "
+                "per assembly: metadata, comment, tiling by the provenance features, verbatim occurrence in the named plasmid, "
+                "GenBank write + read; plus two-level assemblies for the seven kit vectors that embed the next level's sites "
+                "(level 1 with 1-2 annotated inserts, the product re-used as the module of a level-2 assembly): outer "
+                "provenance features tile, inner ones are nested; non-trivial = the product inherits a feature")
     C08.run_common(ctx, "C09", "violations9")
+    cases = gen_two_level(ctx)
+    res = common.run_impl(ctx, "C09", "run_two_level", cases)
+    terms, idx = [], []
+    for i, (c, r) in enumerate(zip(cases, res)):
+        ctx.evaluations += 1
+        ctx.count("two-level:" + c["triple"][0])
+        if r["obs1"]["out"] != "product":
+            ctx.violations.append({"signature": "C09:two-level:level-1-failed", "what": str(r["obs1"]), "input": c})
+            continue
+        if "skip" in r:
+            ctx.count("two-level-skipped:" + r["skip"])
+            continue
+        if "product2" not in r:
+            ctx.violations.append({"signature": "C09:two-level:level-2-failed", "what": str(r["obs2"]), "input": c})
+            continue
+        ctx.nontriv([e["rec"]["seq"] for e in c["elements"]])
+        for v in r["violations9"]:
+            ctx.violations.append(dict(v, input=c))
+        for t in two_level_terms(ctx, c, r):
+            terms.append(t)
+            idx.append(i)
+    bad = common.coq_eval_cases(ctx, "two", IMPORTS, terms, "check", per_file=100)
+    for b in sorted(set(idx[x] for x in bad)):
+        ctx.disagreements.append({"case": cases[b], "observable": "sequence and ordered feature table of a level-1 / level-2 product vs "
+                                                                   "AnnotPipeline.annot_product", "model_fn": "AnnotPipeline.annot_product"})
 
 
 def replay(ctx, data):
+    v = data.get("violation") or {}
+    case = v.get("input") or (data.get("correspondence_disagreements") or [{}])[0].get("case")
+    if case and "triple" in case:
+        r = common.run_impl(ctx, "C09", "run_two_level", [case])[0]
+        print("oracle:", r.get("violations9"), r.get("obs2"))
+        return 1 if r.get("violations9") or "product2" not in r else 0
     return C08.replay(ctx, data, "violations9")
